@@ -171,6 +171,10 @@ func raceOwner(loc string) string {
 		return "C13"
 	case loc == "sync.WaitGroup":
 		return "C12"
+	case vrt.IsMapLoc(loc) && !strings.HasPrefix(loc, "Directory."):
+		// unordered conflicting accesses to a map are detected by the Go runtime, which then kills the
+		// process ("fatal error: concurrent map writes"): recover() cannot catch that
+		return "C07"
 	}
 	return ""
 }
